@@ -61,7 +61,7 @@ Fixpoint dt_export (d : dtype) (v : pyval) {struct d} : res pyval :=
       | Some items => mapd_res dt_export elems items >>= fun ys => Ok (PList ys)
       end
   | TStruct members optional client =>
-      struct_check (map fst members) optional client false v >>= fun _ =>
+      struct_check (map fst members) optional client true v >>= fun _ =>      (* check_type(value, True) *)
       if negb (is_dict v) then Err EAttr
       else struct_fold dt_export false members (dict_items v) [] >>= fun kv => Ok (PDict kv)
   end.
@@ -134,8 +134,7 @@ Record cmd := { c_arg : option dtype; c_res : option dtype; c_ret : pyval }.
 Inductive abody := AP (p : par) | AC (c : cmd).
 Record acc := {
   a_attr : str;
-  a_wire0 : option str;             (* key under which _add_accessible registered the attribute in accessiblename2attr *)
-  a_wire : option str;              (* final export property: None = falsy *)
+  a_wire : option str;              (* export property after _add_accessible: the key in accessiblename2attr; None = falsy *)
   a_group : str;
   a_vis : Z;
   a_body : abody;
@@ -173,20 +172,11 @@ Definition kind_ok (a : acfg) : bool :=
   | _, _ => true
   end.
 
-(* _add_accessible: "if not self.export: accessible.export = False", then the registration *)
-Definition wire0_of (mod_export : bool) (a : acfg) : option str :=
-  if mod_export then fix_export (ac_attr a) (ac_export a) else None.
-(* ... then the configured properties are applied, finish calls fixExport again *)
-Definition true_name : str := [84; 114; 117; 101]%N.          (* str(True): Command.finish does not call fixExport *)
+(* _add_accessible: the configured properties are applied first, then "if not self.export: accessible.export = False",
+   then fixExport; the result is the key registered in accessiblename2attr and the name used by the report *)
 Definition wire_of (mod_export : bool) (a : acfg) : option str :=
-  match ac_cfg_export a with
-  | Some e =>
-      match ac_body a, e with
-      | BCmd _, ExTrue => Some true_name
-      | _, _ => fix_export (ac_attr a) e
-      end
-  | None => wire0_of mod_export a
-  end.
+  if mod_export then fix_export (ac_attr a) (match ac_cfg_export a with Some e => e | None => ac_export a end)
+  else None.
 
 Fixpoint replace_dollar (u s : str) : str :=
   match s with
@@ -224,7 +214,7 @@ Definition build_acc (mod_export : bool) (mainunit : option str) (a : acfg) : re
    | BParam p => build_par mainunit p >>= fun r => Ok (AP r)
    | BCmd c => Ok (AC {| c_arg := cc_arg c; c_res := cc_res c; c_ret := cc_ret c |})
    end) >>= fun b =>
-  Ok {| a_attr := ac_attr a; a_wire0 := wire0_of mod_export a; a_wire := wire_of mod_export a;
+  Ok {| a_attr := ac_attr a; a_wire := wire_of mod_export a;
         a_group := ac_group a; a_vis := ac_vis a; a_body := b |}.
 
 Fixpoint map_resA {A B} (f : A -> res B) (l : list A) : res (list B) :=
@@ -249,8 +239,15 @@ Definition interface_classes (mro : list (str * bool)) : list str :=
   firstn interface_classes_limit (filter (fun n => mem_str n secop_base_classes) (map fst mro)).
 Definition features_of (mro : list (str * bool)) : list str := map fst (filter snd mro).
 
+(* "export name ... is already used" -> self.errors -> ConfigError: the module is not created *)
+Definition wires (accs : list acc) : list str :=
+  flat_map (fun a => match a_wire a with Some w => [w] | None => [] end) accs.
+Fixpoint dup_free (l : list str) : bool :=
+  match l with [] => true | x :: r => negb (mem_str x r) && dup_free r end.
+
 Definition build_mod (m : mcfg) : res modl :=
   map_resA (build_acc (mc_export m) (main_unit (mc_accs m))) (mc_accs m) >>= fun accs =>
+  if negb (dup_free (wires accs)) then Err EOther else
   Ok {| m_name := mc_name m; m_export := mc_export m; m_group := mc_group m; m_vis := mc_vis m; m_impl := mc_impl m;
         m_ifaces := interface_classes (mc_mro m); m_features := features_of (mc_mro m); m_accs := accs |}.
 
@@ -311,9 +308,10 @@ Inductive op :=
 | ODriverSet (m attr : str) (v : pyval).
 
 Definition find_mod (s : state) (m : str) : option modl := find (fun x => str_eqb m (m_name x)) (s_mods s).
-Definition wire0_is (w : str) (a : acc) : bool := opt_eqb str_eqb (a_wire0 a) (Some w).
-(* accessiblename2attr.get(exportedname): a python dict, the last registration of a key wins *)
-Definition lookup0 (md : modl) (w : str) : option acc := find (wire0_is w) (rev (m_accs md)).
+Definition wire_is (w : str) (a : acc) : bool := opt_eqb str_eqb (a_wire a) (Some w).
+(* accessiblename2attr.get(exportedname): a python dict, the last registration of a key wins
+   (keys are distinct in a module that could be built) *)
+Definition lookup0 (md : modl) (w : str) : option acc := find (wire_is w) (rev (m_accs md)).
 Definition find_attr (md : modl) (attr : str) : option acc := find (fun a => str_eqb attr (a_attr a)) (m_accs md).
 
 (* only value and error flag of a parameter object ever change *)
@@ -323,7 +321,7 @@ Definition with_value (p : par) (v : pyval) (e : bool) : par :=
 Definition set_val_acc (attr : str) (v : pyval) (e : bool) (a : acc) : acc :=
   if str_eqb attr (a_attr a) then
     match a_body a with
-    | AP p => {| a_attr := a_attr a; a_wire0 := a_wire0 a; a_wire := a_wire a; a_group := a_group a; a_vis := a_vis a;
+    | AP p => {| a_attr := a_attr a; a_wire := a_wire a; a_group := a_group a; a_vis := a_vis a;
                  a_body := AP (with_value p v e) |}
     | AC _ => a
     end
@@ -354,8 +352,6 @@ Definition announce (s : state) (m : str) (a : acc) (p : par) : list upd :=
   | None => []
   end.
 
-Definition py_list (v : pyval) : res pyval :=
-  match py_iter v with Some l => Ok (PList l) | None => Err EType end.
 Definition with_qualifiers (v : pyval) : pyval := PList [v; PDict []].
 Definition reply_of (r : res pyval) : reply := match r with Ok v => RpData v | Err e => RpErr (RExc e) end.
 
@@ -370,7 +366,7 @@ Definition do_read (s : state) (m w : str) : reply :=
           | AC _ => RpErr RNoPar
           | AP p =>
               match p_constant p with
-              | Some c => reply_of (dt_export (p_dt p) c >>= py_list)       (* list(datatype.export_value(constant)) *)
+              | Some c => RpData (with_qualifiers c)            (* the constant property holds the exported value *)
               | None => reply_of (dt_export (p_dt p) (p_value p) >>= fun v => Ok (with_qualifiers v))
               end
           end
